@@ -122,6 +122,14 @@ def obs_manager(mgr, existences, vec_seed):
 
 def validate(obs, spec, mgr_extra=None):
     """Clause (b): the coding works, judged against R-conn."""
+    try:
+        return _validate(obs, spec)
+    except Viol as v:
+        enc = obs['encoder'].replace(' ', '-')
+        raise Viol(f'{v.clause}[{enc}]', v.detail)
+
+
+def _validate(obs, spec):
     pats = ref_conn.all_patterns(spec)
     n_opts = obs['n_opts']
     n_sets_total = 0
@@ -505,7 +513,7 @@ def generate_disk(seed, tier='quick', index=0):
         t['phases'].append(copy.deepcopy(t['phases'][0]))
     for ph in t['phases'][1:]:
         for _ in range(frng.randint(1, 2)):
-            ph['disk_faults'].append({'kind': frng.choice(['tear', 'tear', 'lose', 'flip']), 'file': frng.randrange(100),
+            ph['disk_faults'].append({'kind': frng.choice(['tear', 'tear', 'lose']), 'file': frng.randrange(100),
                                       'frac': round(frng.random(), 3)})
     t['config'] = 'out-of-contract'
     return t
@@ -723,4 +731,4 @@ def jobs(tier, batch_seed):
     from simkit.driver import std_jobs
     if tier == 'thorough':
         return std_jobs([('generate_enum', 90), ('generate', 20000), ('generate_disk', 6000)], batch_seed)
-    return std_jobs([('generate_enum', 6), ('generate', 500), ('generate_disk', 150)], batch_seed)
+    return std_jobs([('generate_enum', 3), ('generate', 120), ('generate_disk', 40)], batch_seed)
